@@ -106,6 +106,9 @@ def translate_unit(ucls, repo):
             (f.impl_of is not None and f.impl_of[1] in impls and (f.impl_of[0] is None or f.impl_of[0] in u.traits))]
     if u.only is not None if hasattr(u, "only") else False:
         mine = [f for f in mine if f.name in u.only or f.name in u.skip]
+    if getattr(u, "qualify_by_impl", False):            # several impl blocks with equally named methods: `Impl::name`
+        for f in mine:
+            f.name = f"{f.impl_of[1]}::{f.name}"
     u.fns = {f.name: f for f in mine}
     u.consts = dict(u.consts)
     u.consts.update(const_values(src, u.impl))
@@ -120,7 +123,14 @@ def translate_unit(ucls, repo):
             problems.append(f"struct {sname} has fields {got}, the model knows {sfields}")
     em = Emitter(u)
     defs, done = [], []
-    mine = topo(mine, u)
+    order = getattr(u, "order", None)
+    if order:       # units whose calls are resolved by receiver type (`qualify_by_impl`) give the definition order
+        problems += [f"{u.file}: fn {f.name}: not in the unit's `order`" for f in mine
+                     if f.name not in order and f.name not in u.skip]
+        problems += [f"{u.file}: function `{n}` of the unit's `order` no longer exists" for n in order if n not in u.fns]
+        mine = sorted(mine, key=lambda f: order.index(f.name) if f.name in order else len(order))
+    else:
+        mine = topo(mine, u)
     for f in mine:
         if f.name in u.skip:
             continue
